@@ -7,23 +7,40 @@ from vlib.gens import hx, dec, nat_pattern, PATTERNS, signed
 GROUP = "cfg"
 LEAN_PROPS = "Dashu.Props.C19"
 LEAN_AUDIT = "Dashu.Audit.C19"
+GEN_PROPS = ["Dashu.Props.C19Wire", "Dashu.Props.C19Arch"]
+GEN_AUDIT = ["Dashu.Audit.C19Wire", "Dashu.Audit.C19Arch"]
+USES_GEN = True
 JOBS = 12
 READY = True
 
 REFINED = ["serde UBig/IBig binary (LE bytes, sign in the length parity) encode/decode; the payload is C07's word-level to_le_bytes for every W",
+           "serde binary arms of ALL six types at the word level (Model/Serde/NumW.lean: words_to_le_bytes::<false>(as_words()) / from_le_bytes of the "
+           "build's word size, RBig's reduce over C12's mirrored Lehmer gcd and C02's mirrored division; executed by the driver for sd.* pc / de.* pc at "
+           "W = 64 and W = 32) = the W-free encoders / decoders, for every word size that is a multiple of 8 (Props/C19Wire)",
            "postcard varint / zig-zag / length-prefixed bytes", "serde_json string quoting (plain characters)",
            "UBig/IBig/RBig/Relaxed text round trip (Display -> JSON string -> from_str_with_radix_prefix [+ reduce])",
            "Repr<B>/FBig text round trip (Display -> JSON string -> from_str_native), bases 2..36, on C08's proved printer/parser model",
            "RBig/Relaxed binary + text decode: reduce / reduce2 canonical",
            "Repr<B>/FBig binary + text decode: Repr::new normalisation canonical",
            "word-size independence of + - * sqr (C01), / % div_rem (C02), & | ^ << >> (C09), print / parse / LE bytes (C07) as corollaries",
+           "architecture layer integer/src/arch/** REGENERATED (Tie A, Gen/ArchAdd.lean): add_with_carry / sub_with_borrow of generic/add.rs and of the "
+           "x86 / x86_64 intrinsic files, the arch/*/mod.rs module tables, the Word types, the cfg_if selection chain; proved = the carry arithmetic of the "
+           "word-level models for every W, intrinsic = generic at 32 / 64 bits, two W-bit steps = one 2W-bit step, tables consistent (Props/C19Arch); "
+           "digits.rs: constants regenerated and SWAR routine proved for every W by C07 (Gen/TextLow, Props/C07)",
            "log2_fp8 / ceil_log2_fp8 (no_std estimator): table + both functions, all u16 inputs"]
-FRONTIER = ["std/no_std and debug/release independence: no model-level statement (features and profile do not occur in the models); decided by "
-            "replaying every property's generator in 3 (quick) / 8 (thorough) builds",
-            "integer / float / rational kernels below the frontier of the properties that own them",
+FRONTIER = ["std/no_std and debug/release independence: no model-level statement is possible - features and profile do not occur in any model "
+            "definition (they change which Rust code is compiled, not a parameter of it); decided by replaying every property's generator in 3 (quick) / 8 "
+            "(thorough) builds",
+            "integer / float / rational kernels below the frontier of the properties that own them (linked by import: C01, C02, C07, C09, C12 theorems are "
+            "composed, not re-proved); Repr::new normalisation and reduce2's trailing_zeros / shifts are used at their C05 / C09 contracts in the serde decoders",
             "log2 estimators: the f32 steps around the no_std table and the std f32::log2 path are replicated with Lean's compiled Float32 "
-            "(not in the kernel); every pair of bounds is decided exactly per call, and a property-level judge accepts other valid bounds",
-            "serde_json / postcard themselves (modelled from their sources)"]
+            "(not in the kernel: no kernel-level model of IEEE binary32 log2 exists); every pair of bounds is decided exactly per call, and a property-level "
+            "judge accepts other valid bounds",
+            "x86 intrinsics _addcarry_u32/u64, _subborrow_u32/u64: modelled from the Intel SDM (Model/Arch/Prelude.lean), executed natively by the 64-bit builds",
+            "arch/*/ntt.rs (NTT prime tables per word size): owned by C01's multiplication model; only the file selection is regenerated here",
+            "serde_json / postcard themselves (modelled from their sources)",
+            "clause `reject malformed input with an error`: binary decoders proved (…_decode_canonical); text path of floats has one recorded finding "
+            "(exponent literal at the edge of isize: overflow instead of an error)"]
 RULE = ("clause 1: the case generators of C01, C02, C09, C05, C07, C08, C06, C12, C13, C03, C10, C04, C14 (integer ring / division / "
         "bits / comparison / text / conversions / number theory / modular / float and rational arithmetic / cross-type), sampled per "
         "run (+ operands sized in 32-bit words around the word-count thresholds), wrapped as `cfgall <group>/<op> …`: every configuration of the run evaluates the case, the front demands byte-"
@@ -34,21 +51,30 @@ RULE = ("clause 1: the case generators of C01, C02, C09, C05, C07, C08, C06, C12
         "huge lengths, leading zero bytes, negative zero, zero denominators, unnormalised significands, precision smaller "
         "than the significand, extreme exponents, trailing bytes; JSON: escapes, non-strings, unterminated, trailing text, "
         "radix prefixes, signs, underscores, every float notation. clause 2: log2_bounds of u8..u128/UBig/IBig at powers of "
-        "two +-1, table boundaries and random values in each build, bounds decided exactly. Non-trivial := not a `cfg.self`"
+        "two +-1, table boundaries and random values in each build, bounds decided exactly. Directed: formatting in EVERY radix 2..36 of values with every digit count from digits_per_word to the maximum of a word / "
+        "double word for W = 32 and 64 (least, least+1, greatest, random: the fixed digit buffers of PreparedWord / PreparedDword); 65..131-bit "
+        "integers -> f32/f64 at the rounding boundary.  Foreign ops unknown to exec_cfg / drive_cfg are probed and left out (logged); extreme-argument "
+        "cases (>= 2^31) whose result size is proportional to the argument (model refuses or does not answer in 4 s) are left out (resource limits "
+        "counted in words differ by word size: AllocTooMuch vs the allocator's OutOfMemory); Debug text and s32.* host-f32 probes are not values. "
+        "Non-trivial := not a `cfg.self`"
         " probe; distinct := distinct case lines.")
 EXPLANATION = ("Theorems: word-size independence of the integer ops as corollaries of the all-W refinement theorems of "
                "C01/C02; the serde byte and text formats are W-free functions of the value with decode(encode x) = x for "
                "UBig, IBig, RBig, Relaxed, Repr, FBig (binary) and UBig/IBig (text); every decoder returns a canonical value or "
-               "an error on arbitrary input; the no_std log2 table estimator brackets log2 on all 65 280 inputs (kernel "
+               "an error on arbitrary input; the binary serde arms at the word level (what a W-bit build executes) equal the W-free ones for every W = 8k, for all six types; "
+               "the regenerated add_with_carry / sub_with_borrow of every arch module equal the carry arithmetic of the models and each other across "
+               "word sizes; the no_std log2 table estimator brackets log2 on all 65 280 inputs (kernel "
                "decision). Tie: the same case files are evaluated by the harness built as {64,32-bit words} x {std,no_std} x "
                "{dev,release} (3 configurations quick, 8 thorough), compared with each other byte for byte and with the model.")
 ASSUMPTIONS = ["usize/isize are 64 bits on the host (force_bits changes Word, not the pointer width): postcard length and "
                "exponent varints are modelled as u64/i64",
-               "serde_json and postcard 1.1.3 behave as read from their sources (string escapes, varint limits)"]
+               "serde_json and postcard 1.1.3 behave as read from their sources (string escapes, varint limits)",
+               "the x86 intrinsics _addcarry_uN / _subborrow_uN compute what the Intel SDM documents (ADC / SBB)"]
 LEVEL_TEXT = ("Machine-checked Lean 4 theorems that dashu's serialized forms are functions of the mathematical value only (no "
               "word size in their definition), decode to the value encoded, and that every decoder yields a canonical value or "
               "an error for arbitrary byte/token streams; word-size independence of integer arithmetic as corollaries of the "
-              "for-all-W refinement theorems; an exhaustive kernel-checked table theorem for the no_std log2 estimator. The "
+              "for-all-W refinement theorems; word-level serde encoders / decoders of all six types proved equal to the W-free ones; the architecture layer "
+              "(add_with_carry / sub_with_borrow, module tables, selection chain) regenerated from source and proved; an exhaustive kernel-checked table theorem for the no_std log2 estimator. The "
               "model is tied to /repo by running identical case files through harness binaries built in 3 (quick) / 8 "
               "(thorough) build configurations, diffed against each other and against the model.")
 LEVEL_NOTE = ("Trusted: Lean kernel; axioms propext/Classical.choice/Quot.sound; the harness, generators and the sampling of "
@@ -248,9 +274,81 @@ def kf(kind, args, op):
             # an exponent literal at the edge of isize: normalisation (`exponent += shift`) or the
             # fraction adjustment (`exponent -= fract_digits`) leaves the isize range
             return t is not None and re.search(r"[eE@pPbBhHoO][+-]?9223372036854775[0-9]{3}$", t) is not None
+        if kind == "fexp" and iop.startswith(("text/", "float/")):
+            # the same text handed to the float parser by an op of C08 / C03 (`text/f.parse …`): same input class
+            for x in a[1:]:
+                if x.startswith("s:"):
+                    try:
+                        t = bytes.fromhex(x[2:]).decode("utf-8")
+                    except Exception:
+                        continue
+                    if re.search(r"[eE@pPbBhHoO][+-]?9223372036854775[0-9]{3}$", t) is not None:
+                        return True
+            return False
     except Exception:
         return False
     return False
+
+
+def kf_prec_overflow(args, impl, model):
+    """input class of the C19 finding `unchecked usize / isize arithmetic on an extreme precision or exponent`: a float
+    (float / cross / conv / text group) op with a precision or an exponent of magnitude >= 2^62 among its arguments (so
+    that `2 * precision`, `3 * precision`, `precision + digits`, `exponent + digits`, `exponent * n` leave usize / isize);
+    observed as: builds with overflow checks panic `attempt to add/subtract/multiply with overflow` (or a debug
+    assertion) in float/src, builds without go on with the wrapped value (and return a number or fail to allocate).
+    Never a difference between two returned values: all `ok` answers of the configurations must coincide."""
+    try:
+        inner = args if (args and "/" in args[0]) else args[1:]
+        if len(inner) < 2 or not inner[0].startswith(("float/", "cross/", "conv/", "text/")):
+            return False
+        mags = []
+        for a in inner[1:]:
+            if a.startswith("f:"):
+                for f in a.split(":")[3:]:
+                    if f.lstrip("-").isdigit():
+                        mags.append(abs(int(f)))
+            elif a.startswith("d:") and a[2:].lstrip("-").isdigit():
+                mags.append(abs(int(a[2:])))
+        if not mags or max(mags) < 2 ** 62:
+            return False
+        if not impl.startswith("config-disagree ") or "float/src/" not in impl:
+            return False
+        if "_with_overflow" not in impl and "assertion_failed" not in impl:
+            return False
+        parts = [p.split("=", 1) for p in impl[len("config-disagree "):].split(" || ")]
+        if any(len(p) != 2 for p in parts):
+            return False
+        answers = [a for _, a in parts]
+        oks = set(a for a in answers if a.startswith("ok "))
+        rest = [a for a in answers if not a.startswith("ok ")]
+        return len(oks) <= 1 and all(a.startswith(("panic ", "forms-disagree ")) for a in rest)
+    except Exception:
+        return False
+
+
+def kf_conv_exp_overflow(args, impl, model):
+    """input class of the C19 finding `exponent * log2(B)` in convert_base: to_f32 / to_f64 of a float in base 4, 8, 16
+    or 32 whose exponent times log2(B) (plus the bits that normalisation moves into the exponent) leaves isize"""
+    try:
+        inner = args if (args and "/" in args[0]) else args[1:]
+        if len(inner) < 4 or not inner[0].startswith("conv/"):
+            return False
+        op = inner[0].split("/", 1)[1]
+        if op.endswith(".code"):
+            op = op[:-5]
+        if op not in ("f.to_f32", "f.to_f64", "fr.to_f32", "fr.to_f64"):
+            return False
+        lg = {"d:4": 2, "d:8": 3, "d:16": 4, "d:32": 5}.get(inner[1])
+        if lg is None or not inner[-1].startswith("d:"):
+            return False
+        e = int(inner[-1][2:])
+        if abs(e) * lg < 2 ** 63 - 4096:
+            return False
+        if not impl.startswith("config-disagree ") or "float/src/" not in impl or "_with_overflow" not in impl:
+            return False
+        return True
+    except Exception:
+        return False
 
 
 # ---------------------------------------------------------------------------------- python side encoders
@@ -575,7 +673,10 @@ def gen_decode_json(rng, tier):
 
 # ops whose arguments are machine words of the build, or whose answer is about the representation (word counts,
 # which dispatch route was taken, the words fed to a hasher) rather than about the value
-W_DEPENDENT = re.compile(r"^(cd\.|w\.|k\.|nm\.)|ismultipleconst|frompartsconst|routes|hashfeed|^c\.ones$")
+# (`s32.*`: C10's probes of the host's binary32 arithmetic and of f32 log2 bounds - not values of dashu numbers;
+# `u.dbg` / `i.dbg`: `{:?}` prints all digits of an inline value and `head..tail` of a heap value - which one a 65..128-bit
+# number is depends on the word size by design; it is a diagnostic of the representation, not a value)
+W_DEPENDENT = re.compile(r"^(cd\.|w\.|k\.|nm\.)|ismultipleconst|frompartsconst|routes|hashfeed|^c\.ones$|^[ui]\.dbg$|^s32\.")
 LOG2B = re.compile(r"log2b")                       # answers differ between the std and the no_std estimator
 NOSTD_LOG2B = ("p.log2b", "p.log2brange", "p.flog2b", "u.log2b")   # the ones C12's driver models for the no_std build
 
@@ -609,6 +710,103 @@ def _collect(gen_fn, seconds):
     return out
 
 
+def _drop_unknown_ops(name, group, flat):
+    """a neighbour's generator may be ahead of its harness / driver ops (builders work concurrently): an op that the
+    model driver of this group does not know (`bad-op` on every one of up to three sample cases) is left out of the
+    cross-configuration replay and named in the log, instead of turning the whole check into a machinery error"""
+    import tempfile, shutil
+    model_exe = os.path.join(core.LEAN, ".lake", "build", "bin", "drive_" + GROUP)
+    if not os.path.exists(model_exe):
+        return flat
+    samples = {}
+    for op, args in flat:
+        samples.setdefault(op, [])
+        if len(samples[op]) < 3:
+            samples[op].append(args)
+    probe = [Case("cfgall", [group + "/" + op] + list(a)) for op, al in samples.items() for a in al]
+    if not probe:
+        return flat
+    import hashlib
+    tdir = os.path.join(core.CACHE, "harness-target")
+    if core.REPO != "/repo":
+        tdir += "-alt-" + hashlib.sha1(core.REPO.encode()).hexdigest()[:10]
+    impl_exe = os.path.join(tdir, "debug", "exec_" + GROUP)
+    sides = [("drive_" + GROUP, model_exe, "model")]
+    if os.path.exists(impl_exe) and core.ENV.get("DASHU_CFG_MANIFEST"):
+        sides.append(("exec_" + GROUP, impl_exe, "impl"))
+    known = set(samples)
+    for label, exe, side in sides:
+        wd = tempfile.mkdtemp(prefix="verif-c19probe-")
+        try:
+            path = os.path.join(wd, "cases.txt")
+            core.write_cases(path, probe)
+            got = core.run_side(exe, path, len(probe), 60, side)
+        except Exception as e:
+            core.log("C19: probing the ops of %s with %s failed (%s); nothing dropped" % (name, label, e))
+            continue
+        finally:
+            shutil.rmtree(wd, ignore_errors=True)
+        ok = set()
+        for i, c in enumerate(probe):
+            if not got.get(i, "missing").startswith("bad-op"):
+                ok.add(c.args[0].split("/", 1)[1])
+        unknown = sorted(known - ok)
+        if unknown:
+            core.log("C19: ops of %s unknown to %s (generator ahead of the harness / driver?), left out of the replay: %s"
+                     % (name, label, " ".join(unknown)))
+        known &= ok
+    return [(op, args) for op, args in flat if op in known]
+
+
+def _big_arg(args):
+    for a in args:
+        if a.startswith("d:") and a[2:].lstrip("-").isdigit() and abs(int(a[2:])) >= 2 ** 31:
+            return True
+    return False
+
+
+def _drop_model_hangs(name, group, flat):
+    """extreme machine-integer arguments (shift counts, exponents, bit indices >= 2^31, ROUND4 addendum E1) are replayed
+    wherever the call is cheap.  Where the result would need memory proportional to the argument the real builds refuse
+    (`AllocTooMuch` when the word count exceeds Buffer::MAX_CAPACITY = usize::MAX / WORD_BITS - a limit counted in
+    words, so the 32-bit-word build passes the guard for twice as many bits and then fails in the allocator,
+    `OutOfMemory`, host dependent) and the model at W = 32 would compute the number: not a value, nothing to compare.
+    Those cases are recognised by running the model on the extreme-argument cases first with a short per-case time
+    limit, in parallel shards; what does not answer is left out (count and ops logged)."""
+    import tempfile, shutil
+    from concurrent.futures import ThreadPoolExecutor
+    model_exe = os.path.join(core.LEAN, ".lake", "build", "bin", "drive_" + GROUP)
+    idx = [i for i, (op, args) in enumerate(flat) if _big_arg(args)]
+    if not idx or not os.path.exists(model_exe):
+        return flat
+    jobs = 8
+    shards = [idx[j::jobs] for j in range(jobs)]
+    wd = tempfile.mkdtemp(prefix="verif-c19hang-")
+    bad = set()
+    def do(j):
+        sh = shards[j]
+        if not sh:
+            return []
+        path = os.path.join(wd, "cases.%d.txt" % j)
+        core.write_cases(path, [Case("cfgall", [group + "/" + flat[i][0]] + list(flat[i][1])) for i in sh])
+        got = core.run_side(model_exe, path, len(sh), 4, "model")
+        return [sh[k] for k in range(len(sh))
+                if got.get(k, "missing").startswith(("hang", "crash", "missing", "panic AllocTooMuch", "panic OutOfMemory"))]
+    try:
+        with ThreadPoolExecutor(max_workers=jobs) as ex:
+            for r in ex.map(do, range(jobs)):
+                bad.update(r)
+    except Exception as e:
+        core.log("C19: hang probe of %s failed (%s); nothing dropped" % (name, e))
+        return flat
+    finally:
+        shutil.rmtree(wd, ignore_errors=True)
+    if bad:
+        core.log("C19: %d extreme-argument cases of %s (of %d) refused (AllocTooMuch) or not answered by the model within 4 s (result "
+                 "size proportional to the argument), left out of the replay: ops %s" % (len(bad), name, len(idx), " ".join(sorted(set(flat[i][0] for i in bad)))))
+    return [x for i, x in enumerate(flat) if i not in bad]
+
+
 def wrap_other(rng, tier, confs):
     """every property's case generator, replayed in every configuration: `cfgall <group>/<op> …` (all builds
     byte-identical and equal to the model at both word sizes); the log2_bounds family per configuration"""
@@ -637,8 +835,10 @@ def wrap_other(rng, tier, confs):
             if tier == "quick" and sum(len(a) for a in args) > 12000:
                 continue
             flat.append((op, args))
+        flat = _drop_unknown_ops(name, group, flat)
         if len(flat) > k:
             flat = sub.sample(flat, k)
+        flat = _drop_model_hangs(name, group, flat)
         for op, args in flat:
             if LOG2B.search(op):
                 for conf in confs:
@@ -685,6 +885,39 @@ def gen_conv_directed(rng, tier):
             yield Case("cfgall", ["conv/" + c.op] + c.args)
     except Exception as e:
         core.log("C19: C06 boundary generator unavailable (%s)" % e)
+
+
+def gen_text_directed(rng, tier):
+    """formatting (`in_radix` Display, UBig and IBig) of the values that are an inline word / double word in one
+    word size and take the next routine in the other (`fmt/non_power_two.rs` PreparedWord / PreparedDword /
+    PreparedMedium, `fmt/power_two.rs`), in EVERY radix 2..36 and for both word sizes W = 32, 64: for each digit
+    count L from digits_per_word (the always-filled group) up to the maximal digit count of a W-bit word, and from
+    2*digits_per_word up to the maximal digit count of a 2W-bit double word (the fixed digit buffers
+    MAX_WORD_DIGITS_NON_POW_2 / MAX_DWORD_DIGITS_NON_POW_2 are sized for exactly that maximum; the three digit loops of
+    PreparedDword::new stop on `p1 == 0 && p2 == 0` / `p2 != 0`): the least, least+1, greatest and a random value with
+    L digits that still fits the word / double word, plus the all-ones word / double word and the value one above it."""
+    out = []
+    for Wb in (32, 64):
+        for r in range(2, 37):
+            d, p = 0, 1
+            while p * r <= (1 << Wb) - 1:
+                p *= r; d += 1
+            for bits, lo_d in ((Wb, d), (2 * Wb, 2 * d)):
+                top = (1 << bits) - 1
+                L = max(lo_d - 1, 1)
+                while r ** (L - 1) <= top:
+                    lo, hi = r ** (L - 1), min(r ** L - 1, top)
+                    vals = {lo, min(lo + 1, hi), hi, rng.randrange(lo, hi + 1), min(2 * lo, hi), min(2 * lo + rng.getrandbits(60) % lo, hi)}
+                    for v in vals:
+                        out.append((r, v))
+                    L += 1
+                out.append((r, top)); out.append((r, top + 1)); out.append((r, top - 1))
+    for r, v in out:
+        t = "r%d" % r
+        if rng.random() < 0.35:
+            yield Case("cfgall", ["text/i.fmt", t, 0, rng.choice(["-", "+", "#"]), "none", hx(-v)])
+        else:
+            yield Case("cfgall", ["text/u.fmt", t, 0, rng.choice(["-", "-", "#"]), "none", hx(v)])
 
 
 def words32(rng, tier):
@@ -758,4 +991,5 @@ def generate(rng, tier):
     yield from gen_decode_json(rng, tier)
     yield from words32(rng, tier)
     yield from gen_conv_directed(rng, tier)
+    yield from gen_text_directed(rng, tier)
     yield from wrap_other(rng, tier, confs)
